@@ -160,7 +160,14 @@ impl Sess {
         self.sql(&format!("SET {key} = {}", quote(value))).map(|_| ())
     }
     fn show(&self, what: &str) -> Result<Entries, SqlErr> {
-        let batches = self.sql(&format!("SHOW {what}"))?;
+        // SHOW is an ordinary query: with extreme option values its execution may fail or panic
+        // (e.g. `hash_join_buffering_capacity = usize::MAX` -> tokio semaphore MAX_PERMITS). That is
+        // about query execution, not about the configuration's text round trip: reported as
+        // `SqlErr::Failed("SHOW panicked ...")`, which `sqltry!` maps to inconclusive.
+        let batches = match std::panic::catch_unwind(std::panic::AssertUnwindSafe(|| self.sql(&format!("SHOW {what}")))) {
+            Ok(r) => r?,
+            Err(_) => return Err(SqlErr::Failed("SHOW panicked under the configured options".into())),
+        };
         let mut m = Entries::new();
         for b in batches {
             let (Some(names), Some(values)) = (b.column(0).as_any().downcast_ref::<StringArray>(), b.column(1).as_any().downcast_ref::<StringArray>()) else {
@@ -252,6 +259,7 @@ macro_rules! sqltry {
             Ok(x) => x,
             Err(SqlErr::Timeout) => return Eval::Inconclusive(format!("timeout in {}", $what)),
             // a (tiny) memory limit may be part of the case: SHOW sorts its output
+            Err(SqlErr::Failed(m)) if m.contains("SHOW panicked") => return Eval::Inconclusive(format!("{}: the query panicked under the configured option values", $what)),
             Err(SqlErr::Failed(m)) if m.contains("Resources exhausted") || m.contains("Failed to allocate") => return Eval::Inconclusive(format!("{} hit the configured memory limit", $what)),
             Err(SqlErr::Failed(m)) => return Eval::Finding(Finding { class: format!("show-failed"), message: format!("{} failed: {m}", $what) }),
         }
